@@ -38,7 +38,30 @@ func c04Programs(seed uint64) []string {
 	out = append(out, "Patient.name.given.first().matches('[A-Z][a-z]+')", "Patient.name.given.select($this.replaceMatches('[aeiou]', '*'))", "Patient.name.family.first().matches('^D')",
 		"Patient.name.given.select($this.matches('A.*'))", "Patient.name.given.join(',')", "Patient.birthDate.toString()", "Patient.name.given.distinct().count()",
 		"Patient.name.given.toChars()", "(Patient.name.given | %coll).count()", "Patient.name.given.where($this.matches('n+'))")
+	for _, p := range c04TagPrograms {
+		out = append(out, p.src)
+	}
 	return out
+}
+
+// programs over a custom function `tag` (receiver string + argument string): plain, nested in its own argument, per item
+var c04TagPrograms = []struct{ src, want string }{
+	{"'a'.tag('b')", "1:[system.String ab]"}, {"'a'.tag('b'.tag('c'))", "1:[system.String abc]"}, {"'a'.tag('b'.tag('c'.tag('d')))", "1:[system.String abcd]"},
+	{"'a'.tag('b').tag('c')", "1:[system.String abc]"}, {"Patient.name.given.first().tag(Patient.name.family.first().tag('!'))", ""}, {"Patient.name.given.select($this.tag($this.tag('-')))", ""},
+	{"Patient.name.family.first().tag('x') & Patient.name.given.first().tag('y')", ""},
+}
+
+func c04Copts() []fhirpath.CompileOption {
+	return []fhirpath.CompileOption{compopts.WithExperimentalFuncs(), compopts.AddFunction("tag", func(in system.Collection, s system.String) (system.Collection, error) {
+		if len(in) != 1 {
+			return nil, fmt.Errorf("tag: %d items", len(in))
+		}
+		v, err := system.From(in[0])
+		if err != nil {
+			return nil, err
+		}
+		return system.Collection{system.String(fmt.Sprint(v) + string(s))}, nil
+	})}
 }
 
 func c04Evaluate(e *fhirpath.Expression, res proto.Message, fixed time.Time) string {
@@ -64,7 +87,7 @@ func runC04Child(cfg config) {
 	var exprs []*fhirpath.Expression
 	var idx []int
 	for i, p := range progs {
-		if e, err := fhirpath.Compile(p, compopts.WithExperimentalFuncs()); err == nil {
+		if e, err := fhirpath.Compile(p, c04Copts()...); err == nil {
 			exprs = append(exprs, e)
 			idx = append(idx, i)
 		}
@@ -79,6 +102,9 @@ func runC04Child(cfg config) {
 	if cfg.tier == "thorough" {
 		rounds = 12
 	}
+	// one option slice with spare capacity handed to every Compile: nobody may write into its backing array
+	sharedOpts := make([]fhirpath.CompileOption, 0, 4)
+	sharedOpts = append(sharedOpts, compopts.WithExperimentalFuncs())
 	diff := make([]bool, len(exprs))
 	var mu sync.Mutex
 	var wg sync.WaitGroup
@@ -111,6 +137,8 @@ func runC04Child(cfg config) {
 					if gi%4 == 0 && k%9 == 0 { // compiles and patch compiles in the middle of it all
 						fhirpath.Compile(progs[idx[i]], compopts.WithExperimentalFuncs(), compopts.AddFunction(fmt.Sprintf("custom%d", gi), func(in system.Collection) (system.Collection, error) { return in, nil }))
 						patch.Compile("Patient.name")
+						patch.Compile("Patient.name.given", sharedOpts...)
+						fhirpath.Compile("Patient.name.given", sharedOpts...)
 					}
 				}
 			}
@@ -256,6 +284,15 @@ func runC04(cfg config) {
 		if i%10 == 1 {
 			t = time.Date(2023, 12, 31, 0, 0, 0, 0, zone)
 		}
+		if i%20 == 2 {
+			t = time.Time{} // the zero instant is an instant like any other
+		}
+		if i%20 == 12 {
+			t = time.Time{}.In(zone)
+		}
+		if i%20 == 3 {
+			t = time.Unix(0, 0).In(zone)
+		}
 		savedLocal := time.Local
 		var obsNow [8]int64
 		var obsToday [3]int64
@@ -311,14 +348,19 @@ func runC04(cfg config) {
 	fixed := time.Date(2024, 2, 29, 13, 14, 15, 678000000, time.FixedZone("x", 5*3600+30*60))
 	repeatSame := map[int]bool{}
 	for i, p := range progs {
-		e, err := fhirpath.Compile(p, compopts.WithExperimentalFuncs())
+		e, err := fhirpath.Compile(p, c04Copts()...)
 		if err != nil {
 			continue
 		}
 		a := c04Evaluate(e, res, fixed)
 		same := true
+		for _, tp := range c04TagPrograms { // a custom function's answer is known
+			if tp.src == p && tp.want != "" && a != tp.want {
+				same = false
+			}
+		}
 		for k := 0; k < 3; k++ {
-			e2, _ := fhirpath.Compile(p, compopts.WithExperimentalFuncs())
+			e2, _ := fhirpath.Compile(p, c04Copts()...)
 			if c04Evaluate(e, res, fixed) != a || c04Evaluate(e2, proto.Clone(res), fixed) != a {
 				same = false
 			}
